@@ -149,6 +149,29 @@ class MillerDomain:
             return a[0]
         if n == "map" and len(a) == 2 and isinstance(a[0], It) and a[0].fn is None:
             return It(a[0].items, a[0].pos, a[0].from_vec, args[1])       # lazy: the closure runs when an element is taken
+        # ---- a schedule built with iterator adaptors over the literal bits of the loop constant
+        if n == "once" and len(a) == 1 and d.startswith("core::iter"):
+            return It([a[0]])
+        if n == "then_some" and len(a) == 2 and isinstance(a[0], (bool, int)) and d.startswith("core::bool"):
+            return Adt("core::option::Option", "Some", [a[1]]) if a[0] else Adt("core::option::Option", "None", [])
+        if n == "chain" and len(a) == 2 and isinstance(a[0], It):
+            second = a[1]
+            if isinstance(second, Adt) and second.name == "core::option::Option" and isinstance(second.variant, str):
+                second = It(list(second.fields[:1]) if second.variant == "Some" else [])
+            if isinstance(second, It) and a[0].fn is None and second.fn is None:
+                return It(list(a[0].items[a[0].pos:]) + list(second.items[second.pos:]))
+            return TOP
+        if n == "flat_map" and len(a) == 2 and isinstance(a[0], It) and a[0].fn is None:
+            from core.absexec import call_value
+            out = []
+            for x in a[0].items[a[0].pos:]:
+                r = call_value(ex, args[1], [x])
+                if isinstance(r, Adt) and r.name == "core::option::Option" and isinstance(r.variant, str):
+                    r = It(list(r.fields[:1]) if r.variant == "Some" else [])
+                if not isinstance(r, It) or r.fn is not None:
+                    return TOP
+                out += list(r.items[r.pos:])
+            return It(out)
         if n == "rev" and len(a) == 1:
             if isinstance(a[0], Adt) and a[0].name.endswith("ops::Range") and all(isinstance(x, int) for x in a[0].fields):
                 return It(reversed(range(a[0].fields[0], a[0].fields[1])))
@@ -273,6 +296,15 @@ class MillerDomain:
         if n in ("new", "mul_by_nonresidue", "zero", "scale") and "Fq" in fk.i:
             return TOP
         return NotImplemented
+
+    def index(self, ex, v, i):
+        """`coeffs[pos]` on the coefficient list seen as a slice (a cursor type reading through `&[..]`)"""
+        if isinstance(v, Vec) and isinstance(i, int):
+            if 0 <= i < len(v.items):
+                self.events.append(("coeff", i))
+                return v.items[i]
+            self.errors.append("coefficient index %d out of range (%d coefficients)" % (i, len(v.items)))
+        return TOP
 
     def aggregate(self, ex, adt, variant, ops):
         return NotImplemented
